@@ -117,7 +117,7 @@ def replay_file(path):
             'clauses_evaluated': [n for n, _ in ctx.results], 'inputs_missing': ctx.missing[:10]}
 
 
-def bounded(prop, n, seed):
+def bounded(prop, n, seed, all_failures=False):
     cts = dsl.load_contracts(prop)
     out = {'property': prop, 'n_per_contract': n, 'seed': seed, 'contracts': [], 'failures': [],
            'evaluations': 0, 'note': 'bounded stand-in: same contracts evaluated with float tolerance on random inputs '
@@ -135,7 +135,7 @@ def bounded(prop, n, seed):
                 st['not_replayable'] = '%s: %s' % (type(e).__name__, str(e)[:120])
                 break
             st[status] += 1
-            if status in ('fail', 'exception') and len(out['failures']) < 40:
+            if status in ('fail', 'exception') and (all_failures or len(out['failures']) < 40):
                 out['failures'].append({'contract': ct.ident(), 'clause': (failed or ['no-unexpected-exception'])[0],
                                         'failed': failed, 'exception': exc,
                                         'inputs': {k: v for k, v in ctx.inputs.items()}})
@@ -152,7 +152,7 @@ def main():
         n = int(a[a.index('--n') + 1]) if '--n' in a else 50
         seed = int(a[a.index('--seed') + 1]) if '--seed' in a else 0
         try:
-            print(json.dumps(bounded(prop, n, seed), default=str))
+            print(json.dumps(bounded(prop, n, seed, '--all-failures' in a), default=str))
         except Exception as e:
             print(json.dumps({'error': '%s: %s' % (type(e).__name__, e), 'trace': traceback.format_exc()[-800:]}))
         return 0
